@@ -1,4 +1,220 @@
-(** C09 — proofs (first increment: the table obligation). *)
-From TV Require Import Forwarding.Expected.
+(** C09 — proofs, part 5: the table obligation, and every theorem of parts 2-4 transported from the hand-written expected
+    tables to [gen_tables], the tables the translator read off the Rust source on this run.
+
+    [table_transparent] is a kernel computation over the generated rows.  It yields [tables_ext gen_tables (etb V)] where
+    [V = f18_fixed gen_tables] says which of the two accepted variants of the source this is (finding F18); the model's
+    semantics depends on the tables only through the rows it consults, so objects, stacks and workloads mean the same. *)
+From TV Require Export Forwarding.ProofsBase Forwarding.ProofsWrappers Forwarding.ProofsOrder Forwarding.ProofsAbsent.
+From Coq Require Import Permutation.
+Local Open Scope N_scope.
+
 Lemma table_transparent : table_ok = true.
 Proof. vm_compute. reflexivity. Qed.
+
+Definition V : bool := f18_fixed gen_tables.
+
+Lemma gen_is_expected : tables_ext gen_tables (etb V).
+Proof. destruct (gen_ext table_transparent) as [v H]. unfold V. rewrite (f18_fixed_ext _ _ H). exact H. Qed.
+
+Local Notation G := gen_tables.
+Lemma gcall : forall c m a, call (coll_obj G c) m a = call (coll_obj (etb V) c) m a.
+Proof. intros. apply (coll_obj_ext _ _ gen_is_expected c). Qed.
+Lemma gsnone : forall s, is_none (sub_obj G s) = is_none (sub_obj (etb V) s).
+Proof. intros. apply (sub_obj_ext _ _ gen_is_expected s). Qed.
+Lemma grun : forall c ops, run_case G c ops = run_case (etb V) c ops.
+Proof. intros. apply (run_case_ext _ _ gen_is_expected). Qed.
+Lemma gdisp : forall c m a, dispatch_sem G (call (coll_obj G c)) m a = dispatch_sem (etb V) (call (coll_obj (etb V) c)) m a.
+Proof. intros. apply (dispatch_sem_ext _ _ gen_is_expected). apply (coll_obj_ext _ _ gen_is_expected c). Qed.
+Lemma gbuild : forall c, build_log G c = build_log (etb V) c.
+Proof. intros. apply (build_log_ext _ _ gen_is_expected). Qed.
+
+(** * Exactly once, inner before outer *)
+Lemma once_inner_first : forall c mc ms a, In (mc, ms) notif_pairs ->
+  call (coll_obj G c) mc a = ((root_id c, mc, a) :: ents ms a (coll_recv false ms c), RUnit).
+Proof. intros. rewrite gcall. apply once_inner_first_v; assumption. Qed.
+
+Lemma once_new_span : forall c a,
+  call (coll_obj G c) new_span a =
+    ((root_id c, new_span, a) :: ents on_new_span (a_cs a, a_id a, 0) (coll_recv false on_new_span c), RId (a_id a)).
+Proof. intros. rewrite gcall. apply new_span_v. Qed.
+
+Lemma once_close : forall c a,
+  call (coll_obj G c) try_close a =
+    if b_close (root_beh c) (a_id a)
+    then ((root_id c, try_close, a) :: ents on_close a (coll_recv false on_close c), RBool true)
+    else ([(root_id c, try_close, a)], RBool false).
+Proof. intros. rewrite gcall. apply try_close_v. Qed.
+
+Lemma once_id_change : forall c a,
+  call (coll_obj G c) clone_span a =
+    let nw := b_clone (root_beh c) (a_id a) in
+    ((root_id c, clone_span, a) ::
+       (if nw =? a_id a then [] else ents on_id_change (a_cs a, a_id a, nw) (coll_recv false on_id_change c)), RId nw).
+Proof. intros. rewrite gcall. apply clone_span_v. Qed.
+
+Lemma drop_span_is_try_close : forall c a,
+  call (coll_obj G c) drop_span a =
+    if coll_has_layer c then (fst (call (coll_obj G c) try_close a), RUnit) else ([(root_id c, drop_span, a)], RUnit).
+Proof. intros. rewrite !gcall. apply drop_span_v. Qed.
+
+Lemma current_span_root_only : forall c a, call (coll_obj G c) current_span a = ([(root_id c, current_span, a)], RUnit).
+Proof. intros. rewrite gcall. apply current_span_v. Qed.
+
+(** Dispatcher registration: every layer exactly once, the root first; inner before outer wherever no `and_then` pair is
+    involved (and everywhere once F18 is repaired). *)
+Lemma register_dispatch_once : forall c a, exists ids,
+  call (coll_obj G c) on_register_dispatch a = ((root_id c, on_register_dispatch, a) :: ents on_register_dispatch a ids, RUnit) /\
+  Permutation ids (coll_recv false on_register_dispatch c).
+Proof.
+  intros c a. exists (coll_recv (negb V) on_register_dispatch c). split.
+  - rewrite gcall. apply register_dispatch_v.
+  - apply coll_recv_perm.
+Qed.
+
+Lemma register_dispatch_inner_first : forall c a, f18_fixed G = true \/ pair_free c = true ->
+  call (coll_obj G c) on_register_dispatch a =
+    ((root_id c, on_register_dispatch, a) :: ents on_register_dispatch a (coll_recv false on_register_dispatch c), RUnit).
+Proof.
+  intros c a H. rewrite gcall, register_dispatch_v. destruct H as [H|H].
+  - fold V in H. rewrite H. reflexivity.
+  - rewrite (coll_recv_pair_free (negb V) false _ c H). reflexivity.
+Qed.
+
+Lemma on_subscribe_once : forall c, exists ids,
+  build_log G c = ents on_subscribe arg0 ids /\ Permutation ids (coll_recv false on_subscribe c).
+Proof.
+  intros c. exists (coll_recv true on_subscribe c). split; [rewrite gbuild; apply build_log_v|apply coll_recv_perm].
+Qed.
+
+(** F18 (as long as the source has the outer-first order): rec.with(L1.and_then(L2)) tells L2 before L1. *)
+Lemma F18_refuted : f18_fixed G = false ->
+  let c := CLayered (SPair (SLeaf 2 unhinted) (SLeaf 1 unhinted)) (CLeaf 0 unhinted) in
+  pair_free c = false /\
+  fst (call (coll_obj G c) on_register_dispatch arg0) <>
+    (root_id c, on_register_dispatch, arg0) :: ents on_register_dispatch arg0 (coll_recv false on_register_dispatch c).
+Proof.
+  intros H c. split; [reflexivity|]. rewrite gcall. fold V in H. rewrite H. vm_compute. discriminate.
+Qed.
+
+(** * Queries *)
+Lemma query_outer_first_until_veto : forall c q a,
+  call (coll_obj G c) (q_meth q) a = q_out q a (until_veto (q_ans q a) (coll_ask c)).
+Proof. intros. rewrite gcall. apply query_outer_first_until_veto_v. Qed.
+
+Lemma register_callsite_outer_first_until_never : forall c a, a = (a_cs a, 0, 0) -> linear c = true ->
+  call (coll_obj G c) register_callsite a = rc_out (rc_until (a_cs a) (coll_ask c)).
+Proof. intros. rewrite gcall. apply register_callsite_linear_v; assumption. Qed.
+
+Lemma dispatch_event : forall c a, dispatch_sem G (call (coll_obj G c)) event a = (expected_event c a, RUnit).
+Proof. intros. rewrite gdisp. apply dispatch_event_v. Qed.
+
+Lemma veto_stops_delivery : forall c a,
+  snd (until_veto (q_ans QEvent a) (coll_ask c)) = false ->
+  forall e, In e (fst (dispatch_sem G (call (coll_obj G c)) event a)) -> snd (fst e) = event_enabled.
+Proof. intros c a H e. rewrite gdisp. apply veto_stops_delivery_v; exact H. Qed.
+
+Lemma enabled_veto : forall c a,
+  snd (until_veto (q_ans QEnabled a) (coll_ask c)) = false ->
+  snd (dispatch_sem G (call (coll_obj G c)) enabled a) = RBool false.
+Proof. intros c a H. rewrite gdisp. apply enabled_veto_v; exact H. Qed.
+
+(** The same, operation by operation, at the level the harness observes. *)
+Lemma spec_op_sound : forall c o l, spec_op c o = Some l -> fst (run_op G (coll_obj G c) o) = l.
+Proof. intros c o l H. rewrite (run_op_ext _ _ gen_is_expected). apply spec_op_sound_v; exact H. Qed.
+
+(** * Wrappers *)
+Lemma wrappers_transparent : forall K ps x ops,
+  (existsb uses_id ps = true -> is_none (sub_obj G x) = false) ->
+  run_case G (cplug K (wrap_nest ps x)) ops = run_case G (cplug K x) ops.
+Proof. intros K ps x ops H. rewrite !grun. apply wrappers_transparent_v. rewrite <- gsnone. exact H. Qed.
+
+(** F19: without the side condition the statement is false - an Identity paired with a `None`, as an element of a Vec. *)
+Lemma F19_refuted :
+  let K := CCHere (SCVec [] SHole [SLeaf 1 (hinted 5)]) (CLeaf 0 (hinted 2)) in
+  is_none (sub_obj G SNone) = true /\
+  run_case G (cplug K (wrap_nest [PIdOuter] SNone)) [OHint] <> run_case G (cplug K SNone) [OHint].
+Proof.
+  cbv zeta. rewrite gsnone, !grun. destruct V; split; try (vm_compute; reflexivity); vm_compute; discriminate.
+Qed.
+
+Lemma filter_wrappers_transparent : forall K ws f ops,
+  run_case G (cplug K (SProbe (fwrap_nest ws f))) ops = run_case G (cplug K (SProbe f)) ops.
+Proof. intros. rewrite !grun. apply filter_wrappers_transparent_v. Qed.
+
+Lemma collector_wrappers_transparent : forall K ws c ops,
+  run_case G (kplug K (cwrap_nest ws c)) ops = run_case G (kplug K c) ops.
+Proof. intros. rewrite !grun. apply collector_wrappers_transparent_v. Qed.
+
+(** * None / empty Vec *)
+Lemma absent_as_if_absent : forall z, absent z = true ->
+  (* a layer anywhere in a stack *)
+  (forall K c ops, coll_has_layer c = true -> forallb no_hint_op ops = true ->
+     run_case G (kplug K (CLayered z c)) ops = run_case G (kplug K c) ops) /\
+  (* ... on a bare root collector (the deprecated drop_span is turned into try_close by any Layered) *)
+  (forall K c ops, forallb no_hint_op ops = true -> forallb no_drop_op ops = true ->
+     run_case G (kplug K (CLayered z c)) ops = run_case G (kplug K c) ops) /\
+  (* either half of an and_then pair, an element of a Vec, around / next to any subscriber x anywhere *)
+  (forall K x ops, forallb no_hint_op ops = true ->
+     run_case G (cplug K (SPair z x)) ops = run_case G (cplug K x) ops /\
+     run_case G (cplug K (SPair x z)) ops = run_case G (cplug K x) ops) /\
+  (forall K pre post ops, forallb no_hint_op ops = true ->
+     run_case G (cplug K (SVec (pre ++ z :: post))) ops = run_case G (cplug K (SVec (pre ++ post))) ops) /\
+  (* as the top layer: nothing changes, max_level_hint included *)
+  (forall ws c ops, coll_has_layer c = true ->
+     run_case G (cwrap_nest ws (CLayered z c)) ops = run_case G (cwrap_nest ws c) ops).
+Proof.
+  intros z Ha. repeat apply conj; intros; rewrite !grun.
+  - apply absent_layer_v; assumption.
+  - apply absent_layer_bare_v; assumption.
+  - apply absent_pair_v; assumption.
+  - apply absent_vec_elem_v; assumption.
+  - apply absent_top_v; assumption.
+Qed.
+
+Definition swraps (ws : list swrap) (x : sub) : sub := fold_right SWrap x ws.
+Lemma absent_swraps : forall ws x, absent x = true -> absent (swraps ws x) = true.
+Proof. induction ws; intros x H; cbn [swraps fold_right absent]; [exact H|apply IHws; exact H]. Qed.
+
+Lemma none_absent : forall ws K c ops, coll_has_layer c = true -> forallb no_hint_op ops = true ->
+  run_case G (kplug K (CLayered (swraps ws SNone) c)) ops = run_case G (kplug K c) ops.
+Proof. intros ws. exact (proj1 (absent_as_if_absent _ (absent_swraps ws SNone eq_refl))). Qed.
+
+Lemma empty_vec_absent : forall ws K c ops, coll_has_layer c = true -> forallb no_hint_op ops = true ->
+  run_case G (kplug K (CLayered (swraps ws (SVec [])) c)) ops = run_case G (kplug K c) ops.
+Proof. intros ws. exact (proj1 (absent_as_if_absent _ (absent_swraps ws (SVec []) eq_refl))). Qed.
+
+Lemma none_empty_vec_absent_on_top : forall z ws c ops, (z = SNone \/ z = SVec []) -> coll_has_layer c = true ->
+  run_case G (cwrap_nest ws (CLayered z c)) ops = run_case G (cwrap_nest ws c) ops.
+Proof.
+  intros z ws c ops [H|H] Hl; subst z.
+  - apply (absent_as_if_absent SNone eq_refl); exact Hl.
+  - apply (absent_as_if_absent (SVec []) eq_refl); exact Hl.
+Qed.
+
+(** `max_level_hint` too, unless a collector level underneath another layer reports a genuine OFF. *)
+Lemma no_off_ext : forall K c, no_off G K c -> no_off (etb V) K c.
+Proof.
+  induction K; cbn [no_off]; intros c H; [exact I|apply IHK; exact H|].
+  destruct H as [H1 H2]. split; [apply IHK; exact H1|]. intro a. rewrite <- gcall. apply H2.
+Qed.
+Lemma absent_layer_hint : forall K z c ops, absent z = true -> coll_has_layer c = true -> no_off G K c ->
+  run_case G (kplug K (CLayered z c)) ops = run_case G (kplug K c) ops.
+Proof. intros. rewrite !grun. apply absent_layer_hint_v; try assumption. apply no_off_ext; assumption. Qed.
+
+(** F17, on the tables of this run. *)
+Lemma F17_refuted :
+  (let K := KUnder (SLeaf 1 unhinted) KHole in let c := CLayered (SLeaf 2 unhinted) (CLeaf 0 (hinted 0)) in
+   coll_has_layer c = true /\ ~ no_off G K c /\
+   run_case G (kplug K (CLayered SNone c)) [OHint] <> run_case G (kplug K c) [OHint]) /\
+  (let K := CCUnder (SLeaf 2 (hinted 3)) (CCHere SHole (CLeaf 0 unhinted)) in let x := SLeaf 1 (hinted 5) in
+   run_case G (cplug K (SPair SNone x)) [OHint] <> run_case G (cplug K x) [OHint]) /\
+  (let K := CCUnder (SLeaf 2 (hinted 3)) (CCHere SHole (CLeaf 0 unhinted)) in let x := SLeaf 1 (hinted 5) in
+   run_case G (cplug K (SPair (SVec []) x)) [OHint] <> run_case G (cplug K x) [OHint]).
+Proof.
+  repeat apply conj; cbv zeta; rewrite ?grun.
+  - reflexivity.
+  - intros [_ H]. apply (H arg0). vm_compute. reflexivity.
+  - apply F17_more_permissive_v.
+  - apply F17_less_permissive_v.
+  - destruct V; vm_compute; discriminate.
+Qed.
